@@ -486,8 +486,13 @@ func c07Inner(c c07Outcome) (vk.Result, error) {
 		}
 	}()
 	method := "shadowsocks"
-	if c.Method != "served" {
+	switch c.Method {
+	case "served":
+	case "unknown":
 		method = "tor"
+	default:
+		// names that are not served but resemble the served one: another letter case, a prefix, an extension, padding
+		method = c.Method
 	}
 	pub := srv.pub
 	if c.WrongKey {
@@ -695,7 +700,7 @@ func TestVerif_C07_Outcome(t *testing.T) {
 		c := c07Outcome{
 			User:      rapid.SampledFrom([]string{"bypass", "admin", "ok", "noup", "nodown", "expired", "unknown", "deleted"}).Draw(rt, "user"),
 			Sid:       rapid.SampledFrom([]uint32{0, 0, 1, 77, 0xffffffff}).Draw(rt, "sid"),
-			Method:    rapid.SampledFrom([]string{"served", "served", "served", "unknown"}).Draw(rt, "method"),
+			Method:    rapid.SampledFrom([]string{"served", "served", "served", "served", "unknown", "Shadowsocks", "SHADOWSOCKS", "shadowsock", "shadowsocks2", "shadowsocks "}).Draw(rt, "method"),
 			WrongKey:  rapid.IntRange(0, 5).Draw(rt, "wrongkey") == 0,
 			Transport: rapid.SampledFrom([]string{"direct", "direct", "cdn"}).Draw(rt, "transport"),
 			OffsetMs:  rapid.SampledFrom([]int64{0, 0, 0, 170000, -170000, 176000, -176000, 185000, -185000, 200000, -200000, 86400000}).Draw(rt, "offset"),
